@@ -1,0 +1,15 @@
+//go:build verif
+// +build verif
+
+package rac
+
+// Exported views of unexported constants of conc_reader.go, for the /verif
+// C14 check (the harness aims read lengths and seek positions at the
+// concReader's worker-buffer boundaries). Compiled only with -tags verif.
+
+// VerifRBufferSize is rBufferSize: the size of one loaned Worker buffer, which
+// is also the maximum dRange.Size() of one piece of work.
+const VerifRBufferSize = rBufferSize
+
+// VerifNumRBuffersPerWorker is numRBuffersPerWorker.
+const VerifNumRBuffersPerWorker = numRBuffersPerWorker
